@@ -91,6 +91,9 @@ def c04(ctx):
 def c05(ctx):
     ctx.assumptions += TRUST
     ctx.tlc_mc("SemMC", "SemMC_dst_%s.cfg" % ctx.tier, label="C05_Sem clause-by-clause lemmas on the destination family (design level)")
+    # the same distribution over unbounded integers (negative caps, a destination named several times, kept): inductive invariant by Apalache
+    ctx.assumptions.append("Apalache 0.58 + Z3 for the inductive invariant of DistApa.tla (amount and caps are unbounded integers)")
+    sem.inductive_apalache(ctx, "DistApa", guards=[("IndInit", "NextBad", "IndInvFinal", 1), ("Init", None, "NeverAll", 4)])
     n, b = scale(ctx, (2500, 6), (6000, 24))
     sem.trace_batches(ctx, "dst", "MachineTrace_C05.cfg", n, b)
     sem.scale_sem(ctx, "dst", "MachineTrace_C05.cfg", scale(ctx, 1500, 15000))
